@@ -15,8 +15,8 @@ def generate(G):
              kind="refusal", skeleton={"program": prog, "leaves": ls, "what": what})
 
     # sum(k): every k for a few shapes
-    quick_sum = {("2x3", 1), ("2x3", 2), ("2x2x2", 2), ("2x2x2", 0), ("2x1x2", 3), ("3", 1)}
-    for d in ([3], [2, 3], [2, 2, 2], [2, 1, 2], [1, 3], [2, 2, 1, 2], [2, 2, 2, 2], [1, 1], [3, 2]):
+    quick_sum = {("2x3", 1), ("2x3", 2), ("2x2x2", 2), ("2x2x2", 0), ("2x1x2", 3), ("3", 1), ("2x1x1", 2), ("1x1", 2)}
+    for d in ([3], [2, 3], [2, 2, 2], [2, 1, 2], [1, 3], [2, 2, 1, 2], [2, 2, 2, 2], [1, 1], [3, 2], [2, 1, 1], [1, 1, 1], [2, 1]):
         for k in range(0, len(d) + 1):
             n = G.numel(d)
             tier = "quick" if (G.sname(d), k) in quick_sum else "thorough"
